@@ -47,3 +47,14 @@ for file, cls in ((FD, "DisjointUnion"), (FC, "CartesianProduct")):
              loops={1: dict(invariant=_INV, modifies=["*subs"])},
              modifies=["all:Dict(Str, Expr)"],
              notes="several parent statistics mapped to one child statistic are all multiplied into the substitution")
+
+# Quotient / Complement (the reverse constructors): an equation exists only when NO child carries extra parameters --
+# with a parameter on any sibling the plain quotient/difference of generating functions would be wrong.
+for file, cls in ((FC, "Quotient"), (FD, "Complement")):
+    REG.classes[cls].fields.update({"extra_parameters": Seq(Dict(Str, Str))})
+    contract(file, f"{cls}.get_equation", props=["C20"], lenient=True, aliases=AL,
+             params={"self": Obj(cls), "lhs_func": Expr, "rhs_funcs": Seq(Expr)},
+             requires=["len(rhs_funcs) == len(self.extra_parameters)", "len(rhs_funcs) >= 1"],
+             raises=[("NotImplementedError", "exists(lambda j: 0 <= j and j < len(self.extra_parameters) and "
+                                             "len(self.extra_parameters[j]) > 0)")],
+             notes="refuses (NotImplementedError) exactly when some child has extra parameters")
